@@ -427,6 +427,40 @@ fn sizes(max: usize) -> bool {
     true
 }
 
+/// C08 "every configuration inside the envelope really encodes and decodes": the configurations on the edge of the envelope
+/// (one side 2^n, the other 65536 - 2^n; both work-space limits reached) and one step inside, with 2-byte shards; the shards
+/// with the highest indexes of both kinds are among those given, originals at both ends are among those restored
+fn boundary(full: bool) -> bool {
+    let mut rng = Rng::new(seed()); let mut n = 0u64;
+    let mut cfgs: Vec<(usize, usize)> = vec![(61440, 4096), (4096, 61440), (32768, 32768), (65535, 1), (1, 65535), (61439, 4096), (4096, 61439), (61440, 2049), (2049, 61440)];
+    if full { for e in 0..16 { let p = 1usize << e; cfgs.push((p, 65536 - p)); cfgs.push((65536 - p, p)); if p > 1 { cfgs.push((p - 1, 65536 - p)); cfgs.push((65536 - p, p - 1)); } } }
+    for (k, r) in cfgs { for c in [Codec::Default, Codec::High, Codec::Low] {
+        if !codec_ok(c, k, r) { continue; }
+        let sb = 2usize;
+        let data = rand_data(&mut rng, k, sb);
+        let res = std::panic::catch_unwind(std::panic::AssertUnwindSafe(|| -> Result<(), String> {
+            let rec = enc_with(c, NoSimd::new(), k, r, &data).map_err(|e| format!("encode returned {:?}", e))?;
+            if rec.len() != r { return Err(format!("{} recovery shards", rec.len())); }
+            // missing: the first and the last original (as many as there are recovery shards, at most 3); given: all other originals,
+            // and the recovery shards with the highest indexes
+            let m = r.min(k).min(3);
+            let mut missing: Vec<usize> = vec![0, k - 1, k / 2]; missing.truncate(m); missing.sort(); missing.dedup();
+            let o: Vec<(usize, Vec<u8>)> = (0..k).filter(|i| !missing.contains(i)).map(|i| (i, data[i].clone())).collect();
+            let rc: Vec<(usize, Vec<u8>)> = (r - missing.len()..r).rev().map(|j| (j, rec[j].clone())).collect();
+            let got = dec_with(c, NoSimd::new(), k, r, sb, &o, &rc).map_err(|e| format!("decode returned {:?}", e))?;
+            if got.iter().map(|x| x.0).collect::<Vec<_>>() != missing || got.iter().any(|(i, d)| *d != data[*i]) { return Err("restored originals are wrong".into()); }
+            // all originals given (highest index included), plus a recovery shard: nothing to restore
+            let all: Vec<(usize, Vec<u8>)> = (0..k).rev().map(|i| (i, data[i].clone())).collect();
+            let got = dec_with(c, NoSimd::new(), k, r, sb, &all, &[(r - 1, rec[r - 1].clone())]).map_err(|e| format!("decode with all originals returned {:?}", e))?;
+            if !got.is_empty() { return Err("restored originals although all were given".into()); }
+            Ok(())
+        }));
+        match res { Ok(Ok(())) => n += 1, Ok(Err(m)) => { println!("FAIL boundary {:?} {}:{} {}", c, k, r, m); return false; } Err(_) => { println!("FAIL boundary {:?} {}:{} panic (message in the line above)", c, k, r); return false; } }
+    } }
+    println!("OK boundary {} edge configurations encode and decode (bounded)", n);
+    true
+}
+
 // streaming references of the one-shot functions: exactly the documented call order
 fn stream_dec(k: usize, r: usize, o: &[(usize, Vec<u8>)], rc: &[(usize, Vec<u8>)]) -> Result<std::collections::HashMap<usize, Vec<u8>>, Error> {
     if !ReedSolomonDecoder::supports(k, r) { return Err(Error::UnsupportedShardCount { original_count: k, recovery_count: r }); }
@@ -1018,6 +1052,7 @@ fn main() {
         Some("roundtrip") => roundtrip(num(3, 10)),
         Some("engines") => engines(num(2, 100), a.get(3).map(|s| s.as_str()).unwrap_or("all")),
         Some("sizes") => sizes(num(2, 130)),
+        Some("boundary") => boundary(a.get(2).map(|s| s == "full").unwrap_or(false)),
         Some("oneshot") => oneshot(num(2, 300)),
         Some("linearity") => linearity(num(2, 100), &f),
         Some("layers") => layers(num(2, 300)),
